@@ -54,6 +54,8 @@ structure Cfg where
   readdirNullPath : Option Nat
   fdstatNullPath : Option Nat
   filestatNullPath : Option Nat
+  /-- `resolvePath` fails for a guest path that contains a NUL byte -/
+  resolveRejectsNul : Bool
   seekChecksWhenceFirst : Bool
   pwriteOffsetBits : Abi → Nat
   preadOffsetBits : Abi → Nat
@@ -67,6 +69,7 @@ def Cfg.ofGen : Cfg where
   readdirNullPath := Gen.Wasi.readdirNullPath
   fdstatNullPath := Gen.Wasi.fdstatNullPath
   filestatNullPath := Gen.Wasi.filestatNullPath
+  resolveRejectsNul := Gen.Wasi.resolveRejectsNul
   seekChecksWhenceFirst := Gen.Wasi.seekChecksWhenceFirst
   pwriteOffsetBits := fun | .preview1 => Gen.Wasi.fd_pwrite_offset_bits_p1 | .unstable => Gen.Wasi.fd_pwrite_offset_bits_un
   preadOffsetBits := fun | .preview1 => Gen.Wasi.fd_pread_offset_bits_p1 | .unstable => Gen.Wasi.fd_pread_offset_bits_un
@@ -194,11 +197,12 @@ def setDesc {σ} (s : St σ) (n : Nat) (f : Desc → Desc) : St σ :=
 
 /-- `resolvePath(directory, path, pathLength, result)` where `directory` is the heap string `h`.
     `none` = `false`.  The directory string is read only for a non-empty relative path. -/
-def resolvePath (heap : List Cell) (h : HeapId) (gp : Bytes) : Out (Option Bytes) :=
+def resolvePath (cfg : Cfg) (heap : List Cell) (h : HeapId) (gp : Bytes) : Out (Option Bytes) :=
   match gp with
   | [] => .val none
   | c :: _ =>
-    if c = 47 then
+    if cfg.resolveRejectsNul ∧ gp.any (· == 0) then .val none      -- `MUST (memchr(path, 0, pathLength) == NULL)`
+    else if c = 47 then
       .val (if gp.length < PATH_MAX then some (cstr gp) else none)
     else do
       let dir ← readHeap heap h
@@ -301,24 +305,25 @@ def wrapPositional {σ α} (H : Host σ) (h : σ) (fd : Int) (off : Int) (f : σ
       | (h4, .err e) => (h4, match r with | .err e' => .err e' | _ => .err e)
       | (h4, .ok _) => (h4, r)
 
-/-- `wasiFDWrite` after the descriptor checks -/
-def doWrite {σ} (H : Host σ) (w : MW) (h : σ) (iovs cnt res : Nat)
-    (wr : σ → List Bytes → σ × R Nat) : Out (MW × σ × Res) := do
-  let segs ← readIovecs w.mem iovs Gen.Wasi.ciovecSize Gen.Wasi.ciovecBufOffset Gen.Wasi.ciovecLenOffset cnt
-  let bufs ← gather w.mem segs
-  let _ := H
-  match wr h bufs with
+/-- the tail of `wasiFDWrite`: translate the error, or store the byte count (LE u32) -/
+def finishWrite {σ} (w : MW) (res : Nat) : σ × R Nat → Out (MW × σ × Res)
   | (h', .unmodelled) => retUnmodelled w h'
   | (h', .err e) => ret w h' (wasiErrno e)
   | (h', .ok n) => do
     let w' ← w.store res (leBytes 4 n)
     ret w' h' 0
 
-/-- `wasiFDRead` after the descriptor checks -/
-def doRead {σ} (w : MW) (h : σ) (iovs cnt res : Nat)
-    (rd : σ → List Nat → σ × R Bytes) : Out (MW × σ × Res) := do
-  let segs ← readIovecs w.mem iovs Gen.Wasi.iovecSize Gen.Wasi.iovecBufOffset Gen.Wasi.iovecLenOffset cnt
-  match rd h (segs.map (·.2)) with
+/-- `wasiFDWrite` after the descriptor checks -/
+def doWrite {σ} (H : Host σ) (w : MW) (h : σ) (iovs cnt res : Nat)
+    (wr : σ → List Bytes → σ × R Nat) : Out (MW × σ × Res) := do
+  let segs ← readIovecs w.mem iovs Gen.Wasi.ciovecSize Gen.Wasi.ciovecBufOffset Gen.Wasi.ciovecLenOffset cnt
+  let bufs ← gather w.mem segs
+  let _ := H
+  finishWrite w res (wr h bufs)
+
+/-- the tail of `wasiFDRead`: translate the error, or fill the segments in order and store the
+    byte count (LE u32) -/
+def finishRead {σ} (w : MW) (segs : List (Nat × Nat)) (res : Nat) : σ × R Bytes → Out (MW × σ × Res)
   | (h', .unmodelled) => retUnmodelled w h'
   | (h', .err e) => ret w h' (wasiErrno e)
   | (h', .ok bs) => do
@@ -326,18 +331,27 @@ def doRead {σ} (w : MW) (h : σ) (iovs cnt res : Nat)
     let w2 ← w1.store res (leBytes 4 bs.length)
     ret w2 h' 0
 
+/-- `wasiFDRead` after the descriptor checks -/
+def doRead {σ} (w : MW) (h : σ) (iovs cnt res : Nat)
+    (rd : σ → List Nat → σ × R Bytes) : Out (MW × σ × Res) := do
+  let segs ← readIovecs w.mem iovs Gen.Wasi.iovecSize Gen.Wasi.iovecBufOffset Gen.Wasi.iovecLenOffset cnt
+  finishRead w segs res (rd h (segs.map (·.2)))
+
+/-- the tail of `wasiFDSeek`: translate the error, or store the new offset (LE u64) -/
+def finishSeek {σ} (w : MW) (res : Nat) : σ × R Nat → Out (MW × σ × Res)
+  | (h', .unmodelled) => retUnmodelled w h'
+  | (h', .err e) => ret w h' (wasiErrno e)
+  | (h', .ok r) => do
+    let w' ← w.store res (leBytes 8 r)
+    ret w' h' 0
+
 /-- `wasiFDSeek` -/
 def doSeek {σ} (cfg : Cfg) (H : Host σ) (s : St σ) (w : MW) (n : Nat) (off : Int) (wh : Whence) (res : Nat) : Out (MW × σ × Res) :=
   match getDesc cfg s n with
   | none => ret w s.host BADF
   | some d =>
     if d.fd < 0 then ret w s.host BADF else
-    match H.lseek s.host d.fd off wh with
-    | (h', .unmodelled) => retUnmodelled w h'
-    | (h', .err e) => ret w h' (wasiErrno e)
-    | (h', .ok r) => do
-      let w' ← w.store res (leBytes 8 r)
-      ret w' h' 0
+    finishSeek w res (H.lseek s.host d.fd off wh)
 
 def whenceOf (abi : Abi) (v : Nat) : Option Whence :=
   match abi with
@@ -392,7 +406,7 @@ def pathPrologue {σ} (cfg : Cfg) (s : St σ) (w : MW) (n ptr len : Nat) : Out (
     | none => .val (.error BADF)
     | some hp => do
       let gp ← guestPath w.mem ptr len
-      match ← resolvePath s.heap hp gp with
+      match ← resolvePath cfg s.heap hp gp with
       | none => .val (.error INVAL)
       | some p => .val (.ok p)
 
@@ -564,14 +578,14 @@ def stepRO {σ} (cfg : Cfg) (H : Host σ) (abi : Abi) (s : St σ) (c : ROCall) :
         | none => ret w s.host BADF
         | some oh => do
           let ogp ← guestPath w.mem op ol
-          match ← resolvePath s.heap oh ogp with
+          match ← resolvePath cfg s.heap oh ogp with
           | none => ret w s.host INVAL
           | some opath =>
             match nd.path with
             | none => ret w s.host BADF
             | some nh => do
               let ngp ← guestPath w.mem np nl
-              match ← resolvePath s.heap nh ngp with
+              match ← resolvePath cfg s.heap nh ngp with
               | none => ret w s.host INVAL
               | some npath =>
                 match H.pathCall s.host "rename" [opath, npath] with
@@ -591,7 +605,7 @@ def stepRO {σ} (cfg : Cfg) (H : Host σ) (abi : Abi) (s : St σ) (c : ROCall) :
       | none => ret w s.host BADF
       | some hp => do
         let ngp ← guestPath w.mem np nl
-        match ← resolvePath s.heap hp ngp with
+        match ← resolvePath cfg s.heap hp ngp with
         | none => ret w s.host INVAL
         | some npath =>
           match H.pathCall s.host "symlink" [cstr old, npath] with
@@ -700,6 +714,24 @@ def directoryCheck {σ} (H : Host σ) (h : σ) (fl : List OFlag) (nfd : Nat) : O
     | .ok st => if st.isDir then none else some (.errno NOTDIR [])
   else none
 
+/-- `wasiPathOpen` after `open` returned: O_DIRECTORY emulation, registration, store of the number -/
+def finishOpen {σ} (H : Host σ) (s : St σ) (w : MW) (fl : List OFlag) (fdPtr : Nat) (p : Bytes) :
+    σ × R Nat → Out (St σ × Res)
+  | (h', .unmodelled) => .val ({ s with host := h' }, .unmodelled)
+  | (h', .err e) => .val ({ s with host := h' }, .errno (wasiErrno e) [])
+  | (h', .ok nfd) =>
+    match directoryCheck H h' fl nfd with
+    | some r => .val ({ s with host := h' }, r)
+    | none =>
+      match tableAdd { s with host := h' } nfd p with
+      | none => .val ({ s with host := h' }, .errno BADF [])
+      | some (s2, idx) =>
+        match w.store fdPtr (leBytes 4 idx) with
+        | .ub k => .ub k
+        | .trap t => .trap t
+        | .oof => .oof
+        | .val w' => .val ({ s2 with mem := w'.mem }, .errno 0 w'.log)
+
 /-- `wasiPathOpen` -/
 def pathOpen {σ} (cfg : Cfg) (H : Host σ) (s : St σ)
     (dirfd _dirflags pathPtr pathLen oflags rightsBase _rightsInh fdflags fdPtr : Nat) : Out (St σ × Res) :=
@@ -710,22 +742,8 @@ def pathOpen {σ} (cfg : Cfg) (H : Host σ) (s : St σ)
   | .oof => .oof
   | .val (.error e) => .val (s, .errno e [])
   | .val (.ok p) =>
-    let fl := openFlags oflags fdflags
-    match H.openAt s.host p (openAcc rightsBase) fl with
-    | (h', .unmodelled) => .val ({ s with host := h' }, .unmodelled)
-    | (h', .err e) => .val ({ s with host := h' }, .errno (wasiErrno e) [])
-    | (h', .ok nfd) =>
-      match directoryCheck H h' fl nfd with
-      | some r => .val ({ s with host := h' }, r)
-      | none =>
-        match tableAdd { s with host := h' } nfd p with
-        | none => .val ({ s with host := h' }, .errno BADF [])
-        | some (s2, idx) =>
-          match w.store fdPtr (leBytes 4 idx) with
-          | .ub k => .ub k
-          | .trap t => .trap t
-          | .oof => .oof
-          | .val w' => .val ({ s2 with mem := w'.mem }, .errno 0 w'.log)
+    finishOpen H s w (openFlags oflags fdflags) fdPtr p
+      (H.openAt s.host p (openAcc rightsBase) (openFlags oflags fdflags))
 
 /-- one WASI call -/
 def step {σ} (cfg : Cfg) (H : Host σ) (abi : Abi) (s : St σ) : Call → Out (St σ × Res)
